@@ -4,19 +4,25 @@ import (
 	"encoding/binary"
 	"fmt"
 	"math/rand"
+	"strings"
 )
 
 // tcase is one scripted run of a receive loop (also the JSON `case` of a replay file).
 type tcase struct {
-	Kind   string   `json:"kind"`           // "conn" | "req" | "iso" (several connections on one server; chunks = good1, good2, illegal)
-	Side   string   `json:"side,omitempty"` // conn: "server" | "client"
-	Mode   string   `json:"mode,omitempty"` // conn: server "pool1"|"go"|"rt", client "plain"|"rt"
-	MaxLen int64    `json:"max_len"`        // value given to protocol.SetMaxPackageLength
-	Chunks []string `json:"chunks"`         // conn: the reads to provoke, in order; req: one buffer
-	Want   []string `json:"want,omitempty"` // conn: the sent packet list up to the first illegal one (oracle)
-	Closed bool     `json:"closed"`         // conn: an illegal length prefix was sent completely
-	Gen    string   `json:"gen"`            // generator class
-	Chk    string   `json:"chunking"`       // chunking class
+	Kind   string     `json:"kind"`            // "conn" | "req" | "iso" (several connections on one server; chunks = good1, good2, illegal) | "reconn" (connection histories of one client / one server)
+	Side   string     `json:"side,omitempty"`  // conn: "server" | "client"
+	Mode   string     `json:"mode,omitempty"`  // conn: server "pool1"|"go"|"rt", client "plain"|"rt"
+	MaxLen int64      `json:"max_len"`         // value given to protocol.SetMaxPackageLength
+	Chunks []string   `json:"chunks"`          // conn: the reads to provoke, in order; req: one buffer
+	Want   []string   `json:"want,omitempty"`  // conn: the sent packet list up to the first illegal one (oracle)
+	Closed bool       `json:"closed"`          // conn: an illegal length prefix was sent completely
+	Conns  [][]string `json:"conns,omitempty"` // reconn: the reads of every connection of ONE client / ONE server, in order
+	Ends   []string   `json:"ends,omitempty"`  // reconn: how the peer ends each connection: "fin" | "rst"
+	Gen    string     `json:"gen"`             // generator class
+	Chk    string     `json:"chunking"`        // chunking class
+
+	parent *tcase // reconn: the history this connection belongs to (what a replay re-executes)
+	suffix string // reconn: locus suffix of a connection that follows a reconnect
 }
 
 func (c *tcase) modelLine() string {
@@ -26,6 +32,18 @@ func (c *tcase) modelLine() string {
 	s := "s"
 	if c.Side == "client" {
 		s = "c"
+	}
+	if c.Kind == "reconn" {
+		line := fmt.Sprintf("session %s %d", s, c.MaxLen)
+		for k, conn := range c.Conns {
+			if k > 0 {
+				line += " |"
+			}
+			for _, ch := range conn {
+				line += " " + ch
+			}
+		}
+		return line
 	}
 	line := fmt.Sprintf("feed %s %d", s, c.MaxLen)
 	for _, ch := range c.Chunks {
@@ -458,6 +476,92 @@ func (g *gen) genFor(maxLen int64, scale int) {
 	}
 }
 
+// genReconn: connection histories of ONE TarsClient (and of one TarsServer): every connection but
+// the last is cut by the peer (FIN or RST) at an arbitrary offset INSIDE a packet - after 1..3
+// header bytes, right after the header, in the middle of the body, one byte before its end - or
+// after a protocol error; the next connection carries a fresh packet sequence under an arbitrary
+// chunking. Nothing of an earlier connection may show up in a later one.
+func (g *gen) genReconn(maxLen int64, nClient, nServer int) {
+	sizes := legalSizes(maxLen, 300)
+	if len(sizes) == 0 {
+		return
+	}
+	pkt := func() []byte { return frameOf(g.body(sizes[g.rng.Intn(len(sizes))] - 4)) }
+	for r := 0; r < nClient+nServer; r++ {
+		side, mode := "client", clientModes[g.rng.Intn(len(clientModes))]
+		if r >= nClient {
+			side, mode = "server", "pool1"
+		}
+		nconn := 2
+		if g.rng.Intn(3) == 0 {
+			nconn = 3
+		}
+		var conns [][]string
+		var ends []string
+		chk := ""
+		for k := 0; k < nconn; k++ {
+			var items []item
+			for i := g.rng.Intn(3); i > 0; i-- {
+				items = append(items, item{bytes: pkt()})
+			}
+			end := "fin"
+			if k < nconn-1 {
+				if g.rng.Intn(2) == 0 {
+					end = "rst"
+				}
+				// the partial packet: prefer long ones so that a body cut exists
+				last := pkt()
+				for try := 0; try < 3 && len(last) < 8; try++ {
+					last = pkt()
+				}
+				var cut int
+				isErr := false
+				switch c := g.rng.Intn(8); {
+				case c <= 2:
+					cut = 1 + c // inside the header
+					chk += fmt.Sprintf("hdr%d", cut)
+				case c == 3:
+					cut = 4
+					chk += "hdr4"
+				case c == 4:
+					cut = len(last) - 1
+					chk += "tail-1"
+				case c == 5 && maxLen+1 <= 0xffffffff: // a protocol error ends the connection
+					h := g.illegalHeader(maxLen)
+					last = append(append([]byte{}, h...), g.body(g.rng.Intn(6))...)
+					cut = len(last)
+					isErr = true
+					chk += "error"
+				default:
+					cut = 1 + g.rng.Intn(len(last)-1)
+					chk += "mid"
+				}
+				if cut > len(last) {
+					cut = len(last)
+				}
+				if cut == len(last) && !isErr { // 4-byte packet cut at 4: keep it partial
+					cut = len(last) - 1
+				}
+				items = append(items, item{bytes: last[:cut]})
+				chk += "/" + end + " "
+			} else {
+				items = append(items, item{bytes: pkt()}, item{bytes: []byte{0, 0, 0, 4}})
+			}
+			stream := cat(items)
+			chs := g.chunkings(stream, items, 2)
+			ch := chs[g.rng.Intn(len(chs))]
+			cs := make([]string, len(ch.chunks))
+			for i, c := range ch.chunks {
+				cs[i] = compact(c)
+			}
+			conns = append(conns, cs)
+			ends = append(ends, end)
+		}
+		g.cases = append(g.cases, tcase{Kind: "reconn", Side: side, Mode: mode, MaxLen: maxLen, Conns: conns, Ends: ends,
+			Gen: "reconnect", Chk: strings.TrimSpace(chk)})
+	}
+}
+
 func posName(pos, k int) string {
 	switch {
 	case pos == 0:
@@ -558,6 +662,7 @@ func genCases(rng *rand.Rand, thorough bool) []tcase {
 		g.genMalformed(m, 6*scale)
 		g.cases = append(g.cases[:from], thin(rng, g.cases[from:], budget)...)
 		g.genReq(m)
+		g.genReconn(m, 8*scale, 2*scale)
 		if m >= 5 {
 			n1 := 4 + rng.Intn(int(min64(m, 60))-3)
 			n2 := 4 + rng.Intn(int(min64(m, 60))-3)
